@@ -29,6 +29,11 @@ if REPO not in sys.path:
 from pyvc import verify, smt, spec, symex, frontend, lemmas, lean    # noqa: E402
 
 
+# runs against a scratch copy of the repository (mutants, seeded changes) must not touch the committed evidence
+SCRATCH = os.path.realpath(REPO) != '/repo'
+OUT = HERE if not SCRATCH else os.path.join(os.environ.get('TMPDIR', '/tmp'), 'pyvc-scratch-out')
+
+
 def load_prop(pid):
     return importlib.import_module('props.' + pid)
 
@@ -166,7 +171,7 @@ def run_property(pid, tier, seed):
         if not lean_info['ok']:
             res.errors.append("lean lemma library did not check: " + lean_info['detail'][:500])
     # ---- 4. counterexamples -> replay on the real code ----------------------------------------------------
-    os.makedirs(os.path.join(HERE, 'replays'), exist_ok=True)
+    os.makedirs(os.path.join(OUT, 'replays'), exist_ok=True)
     kf = known_findings()
     for oid, ob, r in failed + candidates:
         is_candidate = r['status'] == 'sat?'
@@ -194,7 +199,7 @@ def run_property(pid, tier, seed):
                 found = None
             if found is not None:
                 witness, observed, confirmed = found['witness'], found['observed'], True
-        path = os.path.join(HERE, 'replays', f"{pid}-{slug(oid)}.json")
+        path = os.path.join(OUT, 'replays', f"{pid}-{slug(oid)}.json")
         rec = {'property': pid, 'obligation': oid, 'function': ob.meta.get('function'),
                'kind': ob.meta.get('kind'), 'clause': ob.meta.get('clause'), 'line': ob.meta.get('line'),
                'detail': ob.meta.get('detail'), 'goal': str(ob.goal)[:2000],
@@ -226,7 +231,7 @@ def run_property(pid, tier, seed):
                     if w.get('key') in seen_keys or len(seen_keys) >= 3:
                         continue
                     seen_keys.add(w.get('key'))
-                    path = os.path.join(HERE, 'replays', f"{pid}-bounded-{slug(b['name'])}-{slug(str(w.get('key','')))}.json")
+                    path = os.path.join(OUT, 'replays', f"{pid}-bounded-{slug(b['name'])}-{slug(str(w.get('key','')))}.json")
                     rec = {'property': pid, 'obligation': 'bounded:' + b['name'], 'witness': w,
                            'observed': w.get('observed'), 'confirmed_on_real_code': True,
                            'repo_sources': frontend.sources_read()}
@@ -272,8 +277,8 @@ def run_property(pid, tier, seed):
     }
     ev = {'property_id': pid, 'tier': tier, 'seed': seed, 'level': level, 'coverage': cov,
           'assumptions': assumptions, 'wall_s': round(wall, 2), 'violations': len(res.violations)}
-    os.makedirs(os.path.join(HERE, 'evidence'), exist_ok=True)
-    json.dump(ev, open(os.path.join(HERE, 'evidence', pid + '.json'), 'w'), indent=1, default=str)
+    os.makedirs(os.path.join(OUT, 'evidence'), exist_ok=True)
+    json.dump(ev, open(os.path.join(OUT, 'evidence', pid + '.json'), 'w'), indent=1, default=str)
     # ---- 7. verdict --------------------------------------------------------------------------------------
     print(f"[{pid}] {n_dis}/{n_obl} obligations discharged over {len(fn_reports)} functions "
           f"({sum(r.paths for r in fn_reports)} paths), solver {solver_time:.1f}s, wall {wall:.1f}s")
